@@ -1,6 +1,6 @@
 #!/bin/sh
 # tools/run_all.sh [tier]: run every registered check once on /repo as it is; evidence files are rewritten.
-cd /verif || exit 2
+cd "$(dirname "$0")/.." || exit 2
 tier=${1:-quick}
 for id in $(python3 -c "import json; print(' '.join(c['property_id'] for c in json.load(open('MANIFEST.json'))['checks']))"); do
   /usr/bin/time -f "$id %es" ./check $id --tier $tier > /tmp/runall_$id.log 2>&1
